@@ -42,7 +42,20 @@ func (e *Enc) autoInvs(fr *Frame, li *loopInfo) []*Clause {
 // inferVariant derives a termination measure for counted loops.
 func (e *Enc) inferVariant(fr *Frame, li *loopInfo) (variant, bool) {
 	if fs, ok := li.stmt.(*ast.ForStmt); ok && fs.Cond != nil {
-		if be, ok := fs.Cond.(*ast.BinaryExpr); ok {
+		cond := fs.Cond
+		// "i < n && more": the counting conjunct alone bounds the loop
+		for {
+			if pe, ok := cond.(*ast.ParenExpr); ok {
+				cond = pe.X
+				continue
+			}
+			if be, ok := cond.(*ast.BinaryExpr); ok && be.Op == token.LAND {
+				cond = be.X
+				continue
+			}
+			break
+		}
+		if be, ok := cond.(*ast.BinaryExpr); ok {
 			var txt string
 			switch be.Op {
 			// narrow operands are measured in int64 so that an unsigned difference cannot underflow when the cursor jumps
